@@ -1251,12 +1251,10 @@ fn c18_main(args: &[String]) {
         for w in r["workloads"].as_array().cloned().unwrap_or_default() {
             workloads.insert(w.as_str().unwrap_or("").to_string());
         }
-        for s in r["samples"].as_array().cloned().unwrap_or_default() {
-            if samples.len() < 3 {
-                samples.push(s);
-            }
-        }
+        samples.extend(r["samples"].as_array().cloned().unwrap_or_default());
     }
+    samples.sort_by_key(|x| x["run_index"].as_u64().unwrap_or(u64::MAX));
+    samples.truncate(3);
     // distinct interleavings
     let mut fps: Vec<u64> = Vec::new();
     for k in 0..nw {
